@@ -115,6 +115,7 @@ type Case struct {
 	Validator *string   `json:"validator"` // httpx.SetValidator for this call: "accept" / "reject"
 	Ctype     *string   `json:"ctype"`     // httpx-json: Content-Type (default application/json)
 	Static    string    `json:"static"`    // "self": the target is the declared type selfReq (it validates itself)
+	Entries   *Doc      `json:"entries"`   // mode "scribble": what the caller stores in the map it got back
 	// sequences
 	Steps  []Case `json:"steps"`
 	Procs1 bool   `json:"procs1"` // run the sequence under GOMAXPROCS(1)
@@ -572,6 +573,49 @@ func queryOf(d *Doc, rep *Repeat) (url.Values, error) {
 	return q, nil
 }
 
+// scribble is what a caller may do with its own struct: unmarshal an empty document into
+// struct{M map[string]any `<tag>:"m"`} and store entries in the map it received.
+func scribble(c Case) (out Out) {
+	out.ID = c.ID
+	tag := "json"
+	if c.Ctype != nil {
+		tag = *c.Ctype
+	}
+	rt := reflect.StructOf([]reflect.StructField{{
+		Name: "M", Type: reflect.TypeOf(map[string]any{}), Tag: reflect.StructTag(tag + `:"m"`)}})
+	target := reflect.New(rt)
+	var err error
+	switch tag {
+	case "json":
+		err = mapping.UnmarshalJsonBytes([]byte("{}"), target.Interface())
+	case "key":
+		err = mapping.UnmarshalKey(map[string]any{}, target.Interface())
+	case "form":
+		err = mapping.NewUnmarshaler("form", mapping.WithStringValues(), mapping.WithOpaqueKeys(), mapping.WithFromArray()).
+			Unmarshal(map[string]any{}, target.Interface())
+	default:
+		err = mapping.NewUnmarshaler(tag).Unmarshal(map[string]any{}, target.Interface())
+	}
+	if err != nil {
+		out.Verdict = "scribbled"
+		out.Err = err.Error()
+		return
+	}
+	m := target.Elem().Field(0)
+	if !m.IsNil() && c.Entries != nil {
+		x, err := toAny(c.Entries)
+		if err != nil {
+			out.Fail = "entries: " + err.Error()
+			return
+		}
+		for k, v := range x.(map[string]any) {
+			m.SetMapIndex(reflect.ValueOf(k), reflect.ValueOf(&v).Elem())
+		}
+	}
+	out.Verdict = "scribbled"
+	return
+}
+
 func runCase(c Case) (out Out) {
 	out.ID = c.ID
 	if c.Mode == "seq" {
@@ -590,6 +634,9 @@ func runCase(c Case) (out Out) {
 		}
 		out.Verdict = "seq"
 		return
+	}
+	if c.Mode == "scribble" {
+		return scribble(c)
 	}
 	tagKey := tagKeyOf(c.Mode)
 	if tagKey == "" {
